@@ -10,7 +10,7 @@
 (* A surface node is TAINTED when its source was added with safe = FALSE or *)
 (* it is (below) a node marked !unsafe.                                     *)
 (***************************************************************************)
-EXTENDS AyMerge, AyUniverse, SequencesExt
+EXTENDS AyMerge, AyUniverse, Props_Eval, SequencesExt
 
 C07_DynKinds == {"call", "bind", "import", "eval", "fstr"}
 
@@ -61,8 +61,16 @@ C07_NoUnsafeExec(calls, docs, safes) ==
                C07_AtomsOf(calls[i].args[a][2]) \cap C07_TaintedAtoms(docs, safes) = {}   \* nothing unsafe was passed
 
 \* a tainted dynamic node that survived merging makes the build fail with UnsafeError
+\* every target name in the tree is one the documents wrote as a name (a reference or other text merged onto a
+\* function node becomes its "target" and fails to import: that error may come first)
+C07_NamesKnown(t, docs, safes) ==
+    \A p \in PathsOf(t) : At(t, p).k \in C07_DynKinds =>
+        C07_NodeName(At(t, p)) \in C07_TaintedNames(docs, safes) \cup C07_CleanNames(docs, safes)
+\* (another error - a dangling reference evaluated earlier - may legitimately come first)
 C07_FailsUnsafe(t, status, docs, safes) ==
-    (C07_TaintedDyn(t, docs, safes) # {} /\ status \in {"done", "EvalError", "UnsafeError"}) => status = "UnsafeError"
+    (C07_TaintedDyn(t, docs, safes) # {} /\ status \in {"done", "EvalError", "UnsafeError"}) =>
+        /\ status # "done"
+        /\ (~BadRefs(t) /\ C07_NamesKnown(t, docs, safes)) => status = "UnsafeError"
 
 C07_EvalHolds(t, status, calls, docs, safes) ==
     C07_InDomain(docs, safes) =>
@@ -83,22 +91,22 @@ C07_Req == [SD("required", NoVal, <<>>) EXCEPT !.form = "tag"]
 C07_Unsafe(sd) == IF sd.form = "none" THEN WithTag(sd, "unsafe") ELSE [sd EXCEPT !.safe = "F", !.form = "md"]
 
 \* what stage 1 may put at f (and data at d that f's argument may refer to)
-C07_F1 == {C07_Call("vmod.r1a", <<<<C07_KA, C07_S("v1")>>>>),
+C07_F1 == {C07_Call("vmod.r1a", <<<<C07_KA, C07_S("vmod.r1v")>>>>),
            C07_Call("vmod.r1a", <<<<C07_KA, C07_XRef(<<C07_KD>>)>>>>),
            C07_Call("vmod.r1a", <<<<C07_KA, C07_Call("vmod.r1b", <<>>)>>>>),
-           C07_Call("vmod.r1a", <<<<C07_KA, C07_Unsafe(C07_S("w1"))>>>>),               \* an argument marked !unsafe
+           C07_Call("vmod.r1a", <<<<C07_KA, C07_Unsafe(C07_S("vmod.r1w"))>>>>),               \* an argument marked !unsafe
            C07_Call("vmod.r1a", <<<<C07_KA, C07_Unsafe(C07_Call("vmod.r1b", <<>>))>>>>),
-           C07_Bind("vmod.r1a", <<<<C07_KA, C07_S("v1")>>>>),
+           C07_Bind("vmod.r1a", <<<<C07_KA, C07_S("vmod.r1v")>>>>),
            C07_Import("vmod.r1a"),
-           C07_Req, C07_S("v1"), SD("dict", NoVal, <<>>)}
-C07_D1 == {C07_S("x1"), C07_Unsafe(C07_S("y1")), SD("list", NoVal, <<<<IKey(0), C07_S("x1")>>>>)}
+           C07_Req, C07_S("vmod.r1v"), SD("dict", NoVal, <<>>)}
+C07_D1 == {C07_S("vmod.r1x"), C07_Unsafe(C07_S("vmod.r1y")), SD("list", NoVal, <<<<IKey(0), C07_S("vmod.r1x")>>>>)}
 C07_Stage1 == UNION { {SD("dict", NoVal, <<<<C07_KF, f>>, <<C07_KD, d>>>>),
-                       SD("dict", NoVal, <<<<C07_KF, C07_Unsafe(f)>>, <<C07_KD, d>>>>),
+                       SD("dict", NoVal, <<<<C07_KF, IF f.k = "import" THEN f ELSE C07_Unsafe(f)>>, <<C07_KD, d>>>>),
                        C07_Unsafe(SD("dict", NoVal, <<<<C07_KF, f>>, <<C07_KD, d>>>>))}
                     : f \in C07_F1, d \in C07_D1 }
 \* what a later stage j may do to f / d
 C07_FLater(j) ==
-    LET r == "vmod.r" \o j  v == "v" \o j
+    LET r == "vmod.r" \o j  v == "vmod.r" \o j \o "v"     \* (every string is an importable name: it may become a target)
     IN {C07_Call(r \o "a", <<<<C07_KA, C07_S(v)>>>>), C07_Call(r \o "a", <<>>),          \* another function node
         SD("dict", NoVal, <<<<C07_KA, C07_S(v)>>>>), SD("dict", NoVal, <<>>),             \* argument override by a mapping
         SD("dict", NoVal, <<<<IKey(0), C07_S(v)>>>>),
@@ -109,9 +117,9 @@ C07_FLater(j) ==
 C07_Later(j) ==
     UNION { {SD("dict", NoVal, <<<<C07_KF, f>>>>), SD("dict", NoVal, <<<<C07_KF, C07_Unsafe(f)>>>>),
              SD("dict", NoVal, <<<<C07_KF, WithTag(f, "weak")>>>>), SD("dict", NoVal, <<<<C07_KF, WithTag(f, "force")>>>>)}
-          : f \in {x \in C07_FLater(j) : x.form = "none" \/ x.k # "scalar"} }
+          : f \in {x \in C07_FLater(j) : (x.form = "none" \/ x.k # "scalar") /\ x.k # "import"} }    \* (!import takes no metadata)
     \cup { SD("dict", NoVal, <<<<C07_KF, f>>>>) : f \in C07_FLater(j) }
-    \cup { SD("dict", NoVal, <<<<C07_KD, C07_S("x" \o j)>>>>), SD("dict", NoVal, <<<<C07_KD, C07_Unsafe(C07_S("y" \o j))>>>>) }
+    \cup { SD("dict", NoVal, <<<<C07_KD, C07_S("vmod.r" \o j \o "x")>>>>), SD("dict", NoVal, <<<<C07_KD, C07_Unsafe(C07_S("vmod.r" \o j \o "y"))>>>>) }
 C07_Later2 == {d \in C07_Later("2") : \A i \in 1..Len(d.ch) : d.ch[i][2].form \in {"none", "tag", "md"}}
 
 C07_Docs  == SetToSeq(C07_Stage1) \o SetToSeq(C07_Later("2")) \o SetToSeq(C07_Later("3"))
@@ -121,8 +129,8 @@ C07_Range == << <<1, Cardinality(C07_Stage1)>>,
                   Cardinality(C07_Stage1) + Cardinality(C07_Later("2")) + Cardinality(C07_Later("3"))>> >>
 
 \* 3-stage histories on a narrower first stage
-C07_Stage1S == {SD("dict", NoVal, <<<<C07_KF, f>>, <<C07_KD, C07_S("x1")>>>>) :
-                   f \in {C07_Call("vmod.r1a", <<<<C07_KA, C07_XRef(<<C07_KD>>)>>>>), C07_Req, C07_Bind("vmod.r1a", <<<<C07_KA, C07_S("v1")>>>>)}}
+C07_Stage1S == {SD("dict", NoVal, <<<<C07_KF, f>>, <<C07_KD, C07_S("vmod.r1x")>>>>) :
+                   f \in {C07_Call("vmod.r1a", <<<<C07_KA, C07_XRef(<<C07_KD>>)>>>>), C07_Req, C07_Bind("vmod.r1a", <<<<C07_KA, C07_S("vmod.r1v")>>>>)}}
 C07_Docs3  == SetToSeq(C07_Stage1S) \o SetToSeq(C07_Later("2")) \o SetToSeq(C07_Later("3"))
 C07_Range3 == << <<1, Cardinality(C07_Stage1S)>>,
                  <<Cardinality(C07_Stage1S) + 1, Cardinality(C07_Stage1S) + Cardinality(C07_Later("2"))>>,
